@@ -86,6 +86,15 @@ func (it *item) enc() []byte {
 	return encList(parts...)
 }
 
+// size counts the nodes of the tree.
+func (it *item) size() int {
+	n := 1
+	for _, k := range it.kids {
+		n += k.size()
+	}
+	return n
+}
+
 func (it *item) clone() *item {
 	c := &item{list: it.list, b: append([]byte(nil), it.b...)}
 	for _, k := range it.kids {
@@ -146,6 +155,13 @@ func mutateTree(t *rapid.T, root *item) string {
 		return "delete"
 	case 4:
 		n := rapid.SampledFrom([]int{1, 2, 50, 1000, 10000}).Draw(t, "copies")
+		// keep the harness's own tree bounded: repeated duplication multiplies (10^4 x 10^4 nodes took 65 GB)
+		if sz := s.node.size(); sz*n > 300000 {
+			n = 300000 / sz
+		}
+		if root.size() > 300000 {
+			n = 1
+		}
 		var kids []*item
 		kids = append(kids, s.parent.kids[:s.idx]...)
 		for i := 0; i <= n; i++ {
@@ -206,7 +222,11 @@ func mutatePayload(t *rapid.T, valid []byte) ([]byte, string) {
 		for i, n := 0, rapid.IntRange(1, 3).Draw(t, "nTreeMuts"); i < n; i++ {
 			notes = append(notes, mutateTree(t, root))
 		}
-		return root.enc(), strings.Join(notes, "+")
+		out := root.enc()
+		if len(out) > 24<<20 { // more than one frame can carry
+			return valid, "valid"
+		}
+		return out, strings.Join(notes, "+")
 	}
 }
 
